@@ -20,13 +20,13 @@ RULE = ("cases = (schema, 1-4 conforming records, write_union_type): random sche
 TRUSTED = ["json.dumps / json.loads are CPython's (the property is stated on the parsed documents: numbers by value, key order as written)",
            "the schema reaches the model as the parsed dict fastavro.parse_schema returned (naming is C11's business)",
            "union branch choice of the writer is the model's elab (C09's business); the independent spec relation accepts any conforming branch"]
-ASSUMPTIONS = ["C15_roundtrip assumes float_leaves_ok (d2s (s2d x) = Ok x on every float leaf, evaluated per leaf, not proved for all x); "
+ASSUMPTIONS = ["C15_json_binary's side condition c15_side is evaluated in Coq on every generated record (notes c15_side_true / c15_side_false:<conjuncts>; it may only fail in the label-distinctness conjuncts, for unions that hold a named type both as definition and as reference)",
+               "C15_roundtrip assumes float_leaves_ok (d2s (s2d x) = Ok x on every float leaf, evaluated per leaf, not proved for all x); "
                "the harness evaluates the same boolean on every generated record (note float_leaves_not_ok must be 0)",
                "NaN / infinities have no JSON encoding (json_enc = None): such records are excluded from the text comparison; the code "
                "writes the tokens NaN/Infinity/-Infinity which Python's json.loads reads back (counted in notes)",
                "recursion limit / memory are not modelled", "tuple / '-type' hints are not generated here (C09)"]
-PARTIAL = ["C15_defaults is proved for the model's own reading of a JSON default (dflt: union -> first branch, bytes/fixed -> code points); "
-           "that dflt equals Write.elab of the default is checked by the correspondence, not proved"]
+PARTIAL = []
 
 PRIMS = gen.PRIMS
 NAMED_T = ("record", "error", "enum", "fixed")
@@ -978,7 +978,7 @@ def run_model(ctx, exprs, tag):
     return res
 
 
-_MRE = re.compile(r"^J:(.*);(R:.*|E|FUEL|-);B:(.*);L:([01])$")
+_MRE = re.compile(r"^J:(.*);(R:.*|E|FUEL|-);B:(.*);L:([01])(;side-condition-false:[01]*)?$")
 
 
 def split_model(m):
@@ -986,7 +986,7 @@ def split_model(m):
     if m is None or not m.startswith("J:"):
         return m
     g = _MRE.match(m)
-    return g.group(1), g.group(2), g.group(3), g.group(4) == "1"
+    return g.group(1), g.group(2), g.group(3), g.group(4) == "1", (g.group(5) or "")[len(";side-condition-false:"):]
 
 
 # ================================================================ the check
@@ -1029,6 +1029,18 @@ def check_case(ctx, c, ms, stats):
         return
     if not all(m[3] for m in ms):
         stats["float_leaves_not_ok"] = stats.get("float_leaves_not_ok", 0) + 1
+    for m in ms:
+        # the computable side condition of C15_json_binary; conjuncts: wf_env wf_schema wf_py named_env wf_envb wfb float-leaves.
+        # Only the label/name distinctness conjuncts (5th, 6th) may fail on generated data: unions holding a named type both as a
+        # definition and as a reference (two branches with one label), which parse_schema accepts
+        if m[4]:
+            k = "c15_side_false:" + m[4]
+            stats[k] = stats.get(k, 0) + 1
+            if m[4][:4] != "1111" or m[4][6] != "1":
+                stats.setdefault("c15_side_unexpectedly_false_samples", []).append((repr(c.raw)[:200], repr(c.records)[:120]))
+            break
+    else:
+        stats["c15_side_true"] = stats.get("c15_side_true", 0) + 1
     docs = [by_value(m[0]) for m in ms]
     spec_docs = [parse_jv(m[0]) for m in ms]
 
@@ -1142,6 +1154,24 @@ def check_case(ctx, c, ms, stats):
                               "text, which json_reader reads correctly) is not read back to the written records")
                 break
 
+    # ---- corr:json-read-reshaped : record members permuted, plus a member that is no field (C15_members_once)
+    if outs is not None:
+        try:
+            rdocs = [reshape(ctx.rng, d, c.parsed, c.named) for d in spec_docs]
+        except (KeyError, TypeError, ValueError, RecursionError):
+            rdocs = None
+        if rdocs is not None and rdocs != spec_docs:
+            ctx.count("corr:json-read-reshaped", key, nontrivial=nontriv)
+            rr = impl_json_read(c.parsed, "\n".join(json.dumps(d) for d in rdocs))
+            if not (rr[0] == "ok" and len(rr[1]) == len(outs) and all(same_by_value(a, b) for a, b in zip(rr[1], outs))):
+                ctx.violation("corr:json-read-reshaped", dict(c.to_json(), text="\n".join(json.dumps(d) for d in rdocs)[:1500]),
+                              impl=("json_reader %s %s" % (rr[0], rr[1]))[:600] if rr[0] != "ok" else " | ".join(show_val(x) for x in rr[1])[:1500],
+                              model="; ".join(want)[:1500],
+                              signature=classify(c, "json_reader", rr[1] if rr[0] != "ok" else "records-differ-from-written", spec_docs)
+                              .replace(":other:", ":record-members-permuted-or-extra:"),
+                              found_input=True, detail="the same documents with record members permuted and a non-field member added are "
+                              "not read back to the same records")
+
     # ---- corr:json-vs-binary
     ctx.count("corr:json-vs-binary", key, nontrivial=nontriv)
     for m in ms:
@@ -1210,6 +1240,36 @@ def deletions(rng, doc, s, named, path=()):
                 out.append((path, f))
             out += deletions(rng, doc[f["name"]], f["type"], named, path + (f["name"],))
     return out
+
+
+def reshape(rng, doc, s, named):
+    """the same document with the members of every RECORD object permuted and a member added that is no field
+    (C15_members_once: a record object is read through its field names only)"""
+    s = resolve(s, named)
+    if isinstance(s, list):
+        if doc is None:
+            return None
+        (lb, x), = doc.items()
+        for b in s:
+            if label(b, named) == lb and tname(resolve(b, named)) != "null":
+                return {lb: reshape(rng, x, b, named)}
+        return doc
+    t = s if isinstance(s, str) else s["type"]
+    if isinstance(t, (dict, list)):
+        return reshape(rng, doc, t, named)
+    if t == "array":
+        return [reshape(rng, x, s["items"], named) for x in doc]
+    if t == "map":
+        return {k: reshape(rng, x, s["values"], named) for k, x in doc.items()}
+    if t in ("record", "error"):
+        items = [(f["name"], reshape(rng, doc[f["name"]], f["type"], named)) for f in s["fields"]]
+        names = set(f["name"] for f in s["fields"])
+        extra = rng.choice(["__no_field__", "zz", "-type", "extra key"])
+        if extra not in names:
+            items.append((extra, rng.choice([None, 1, "x", [1], {"a": 1}])))
+        rng.shuffle(items)
+        return dict(items)
+    return doc
 
 
 def get_path(doc, path):
@@ -1395,6 +1455,26 @@ def check_defaults(ctx, cases, model_by_case, stats):
     exprs = ["run_jread %s %s %s" % (G.env_to_coq(c.named), G.schema_to_coq(fresh(c)[0]), jv_to_coq(apply_deletions(doc, done)))
              for c, r, doc, done, fm in jobs]
     outs = run_model(ctx, exprs, "c15d")
+    # the defaults themselves: JSON reading (dflt), the side condition dflt_bin of C15_dflt_elab, the binary writer's elaboration
+    dseen, dexprs = {}, []
+    for c, r, doc, done, fm in jobs:
+        named = fresh(c)[1]
+        for path, f in done:
+            k = (json.dumps(c.raw, sort_keys=True), json.dumps(f["type"], sort_keys=True), json.dumps(f["default"], sort_keys=True))
+            if k not in dseen:
+                dseen[k] = len(dexprs)
+                dexprs.append("run_dflt %s %s %s" % (G.env_to_coq(named), G.schema_to_coq(f["type"]), G.py_to_coq(f["default"])))
+    for k, dm in zip(dseen, run_model(ctx, dexprs, "c15f")):
+        g = re.match(r"^A:(.*);B:([01]);E:(.*)$", dm or "")
+        ctx.count("corr:dflt-vs-elab", k, nontrivial=True)
+        if not g:
+            stats["dflt_no_answer"] = stats.get("dflt_no_answer", 0) + 1
+            continue
+        stats["dflt_bin_" + ("true" if g.group(2) == "1" else "false")] = stats.get("dflt_bin_" + ("true" if g.group(2) == "1" else "false"), 0) + 1
+        if g.group(2) == "1" and g.group(1) not in ("E", "FUEL") and g.group(1) != g.group(3):
+            ctx.violation("corr:dflt-vs-elab", dict(schema=json.loads(k[0]), field_type=json.loads(k[1]), default=json.loads(k[2])), impl=None,
+                          model=dm[:1500], kind="broken-obligation", signature="C15:model:dflt-differs-from-elab-under-dflt_bin", found_input=False,
+                          detail="the MODEL's dflt and elab differ although dflt_bin holds (contradicts C15_dflt_elab)")
     twice = 0
     for (c, r, doc, done, fm), mo in zip(jobs, outs):
         st, got, expect, holds, doc2, val = defaults_outcome(c, doc, done, fm)
@@ -1452,6 +1532,61 @@ def check_defaults(ctx, cases, model_by_case, stats):
     stats["default_deletion_jobs"] = len(jobs)
 
 
+def impl_json_stream(schema, text):
+    """iterate json_reader by hand: (number of records yielded, 'end' | 'raised')"""
+    import fastavro
+    n = 0
+    try:
+        def go():
+            nonlocal n
+            for _ in fastavro.json_reader(io.StringIO(text), schema):
+                n += 1
+        core.with_timeout(go, 30)
+        return n, "end"
+    except core.Timeout:
+        return n, "timeout"
+    except BaseException as e:
+        if isinstance(e, (KeyboardInterrupt, SystemExit)):
+            raise
+        return n, "raised"
+
+
+def check_stream(ctx, cases, model_by_case, stats):
+    """corr:json-stream (C15_stream_roundtrip / C15_stream_prefix): a document that does not decode -- an object lacking a key that
+    has no default, for a record schema -- is put among the spec documents: json_reader yields the records before it, then raises"""
+    rng = ctx.rng
+    jobs = []
+    for c in cases:
+        ms = model_by_case[id(c)]
+        if not c.wut or not ms or any(not isinstance(m, tuple) for m in ms) or in_known_class(c):
+            continue
+        top = resolve(c.parsed, c.named)
+        if not (isinstance(top, dict) and top.get("type") in ("record", "error") and any("default" not in f for f in top["fields"])):
+            continue
+        docs = [parse_jv(m[0]) for m in ms]
+        docs = docs + ([docs[0]] if len(docs) < 3 else [])
+        k = rng.randrange(len(docs) + 1)
+        bad = {f["name"]: docs[0][f["name"]] for f in top["fields"] if "default" in f}          # every key without default missing
+        seq = docs[:k] + [bad] + docs[k:]
+        if sum(len(json.dumps(d)) for d in seq) > 6000:
+            continue
+        jobs.append((c, seq, k))
+        if len(jobs) >= (150 if ctx.quick() else 3000):
+            break
+    exprs = ["run_jstream %s %s %s" % (G.env_to_coq(c.named), G.schema_to_coq(c.parsed), G.clist(jv_to_coq(d) for d in seq)) for c, seq, k in jobs]
+    outs = run_model(ctx, exprs, "c15s")
+    for (c, seq, k), mo in zip(jobs, outs):
+        ctx.count("corr:json-stream", (repr(c.raw), repr(seq), k), nontrivial=True)
+        n, how = impl_json_stream(c.parsed, "\n".join(json.dumps(d) for d in seq))
+        got = "N:%d;%s" % (n, how)
+        if got != mo or mo != "N:%d;raised" % k:
+            ctx.violation("corr:json-stream", dict(c.to_json(), text="\n".join(json.dumps(d) for d in seq)[:1500], bad_document_index=k),
+                          impl=got, model=mo, signature="C15:json_reader:stream-with-undecodable-document:%s" % got.split(";")[1],
+                          found_input=(got != "N:%d;raised" % k),
+                          detail="json_reader must yield the %d records before the document that lacks a required key, then raise" % k)
+    stats["stream_jobs"] = len(jobs)
+
+
 def dkind(ft, named):
     r = resolve(ft, named)
     if isinstance(r, list):
@@ -1487,6 +1622,7 @@ def run(ctx):
         check_case(ctx, c, by_case[id(c)], stats)
         tags[c.tag] = tags.get(c.tag, 0) + 1
     check_defaults(ctx, cases, by_case, stats)
+    check_stream(ctx, cases, by_case, stats)
     ctx.notes["cases_by_family"] = tags
     ctx.notes["records_evaluated_in_model"] = len(exprs)
     tot = max(1, len(cases))
